@@ -1820,6 +1820,10 @@ static int create_factor_space (
 	{
 		f->uc_space = nzcnt * f->uc_space_mul;
 		ILL_SAFE_MALLOC (f->ucindx, f->uc_space + 1, int);
+		/* init_matrix skips entries below the zero tolerance (explicit zeros):
+		 * the slots reserved for them stay unused and must read as free */
+		for (i = 0; i <= f->uc_space; i++)
+			f->ucindx[i] = -1;
 	}
 
 	if (f->urindx == 0 || f->urcoef == 0)
@@ -1829,6 +1833,8 @@ static int create_factor_space (
 		EGLPNUM_TYPENAME_EGlpNumFreeArray (f->urcoef);
 		f->ur_space = nzcnt * f->ur_space_mul;
 		ILL_SAFE_MALLOC (f->urindx, f->ur_space + 1, int);
+		for (i = 0; i <= f->ur_space; i++)
+			f->urindx[i] = -1;
 
 		f->urcoef = EGLPNUM_TYPENAME_EGlpNumAllocArray (f->ur_space);
 	}
